@@ -13,11 +13,12 @@ def tasks(ctx, quick):
     for i in range(n):
         comp = []
         seen = set()
+        with_molecule = i % 3 != 0
         for _ in range(rng.randint(1, 5)):
-            a = rng.choice(organics) if rng.random() < 0.7 else gen.next_atom()
-            # H[1] is added separately below; tritium is excluded because fasta.Molecule (deprecated behaviour, documented
-            # with a warning) reads T as labile hydrogen, which D2O_match does not
-            if tuple(a) in seen or tuple(a[:2]) in ((1, 1), (1, 3)):
+            a = rng.choice(organics + ([] if with_molecule else [[1, 3, 0]])) if rng.random() < 0.7 else gen.next_atom()
+            # H[1] is added separately below; tritium appears only where fasta.Molecule is not involved, because Molecule
+            # (deprecated behaviour, documented with a warning) reads T as labile hydrogen, which D2O_match does not
+            if tuple(a) in seen or tuple(a[:2]) == (1, 1) or (with_molecule and tuple(a[:2]) == (1, 3)):
                 continue
             seen.add(tuple(a))
             comp.append(a + [rng.choice([1, 2, 3, 5, 8, 12, 0.5, 22])])
@@ -27,8 +28,14 @@ def tasks(ctx, quick):
         t = {"id": "t%d" % i, "kind": "d2o", "compound": ["dict", comp], "d": rng.choice([0.0, 0.25, 0.5, 1.0, rng.random()]),
              "v": rng.choice([0.0, 0.25, 0.5, 1.0, rng.random()])}
         t["natural_density" if i % 2 else "density"] = rng.choice([1.0, 1.35, 0.9, 2.2, rng.uniform(0.5, 5)])
-        if i % 3 == 0:
+        if i % 6 == 0:
             t["wavelength"] = rng.choice([0.5, 1.798, 4.75, 12.0])
+        elif i % 6 == 3:          # the beam given as energy=; energy-dependent scatterers make it matter
+            t["energy"] = rng.choice([3.63, 25.3, 81.8, 327.0, 1000.0, rng.uniform(0.5, 2000)])
+            if rng.random() < 0.6:
+                z, a = rng.choice(gen.tablelike)
+                if (z, a, 0) not in seen:
+                    comp.insert(0, [z, a, 0, rng.choice([1, 2])])
         else:
             t["molecule"] = True
         items.append(t)
